@@ -101,17 +101,21 @@ fn comment_file(lang: &str, rng: &mut Rng) -> B {
                 b.nonprose("ws", "\n");
                 last_was_comment = true;
             }
-            // a fenced code block inside a comment (the line-based comment front-ends skip it); sometimes with a line of
-            // tildes inside, which is content and closes nothing
-            7 if matches!(lang, "rust" | "python" | "c" | "cpp" | "ruby" | "lua" | "shellscript") => {
+            // a fenced code block inside a comment (comment parsers that read Markdown line by line - the unit and the
+            // JSDoc parser - skip it): backtick or tilde fences, an info string on the opening fence, lines of the other
+            // kind of fence inside (content, closing nothing), a longer closing fence
+            7 if matches!(lang, "rust" | "python" | "c" | "cpp" | "ruby" | "lua" | "shellscript" | "javascript" | "typescript" | "javascriptreact" | "typescriptreact"
+                                | "csharp" | "swift" | "scala" | "dart" | "toml" | "nix" | "cmake") => {
                 let codez = b.forbid("codezzq");
+                let (fence, other) = if rng.chance(1, 2) { ("```", "~~~") } else { ("~~~", "```") };
+                let info = *rng.pick(&["", "", "rust", "js", "text"]);
                 b.nonprose("leader", &format!("{indent}{lead}"));
                 { let k = rng.range(2, 4); b.prose_words(rng, k); }
                 b.nonprose("ws", "\n");
-                b.nonprose("code", &format!("{indent}{lead}```\n{indent}{lead}let {codez} = 1;\n"));
-                if rng.chance(1, 2) { b.nonprose("code", &format!("{indent}{lead}~~~\n{indent}{lead}then {codez} again\n")); }
-                if rng.chance(1, 4) { b.nonprose("code", &format!("{indent}{lead}~~~~ {codez}\n{indent}{lead}~~~\n")); }
-                b.nonprose("code", &format!("{indent}{lead}```\n"));
+                b.nonprose("code", &format!("{indent}{lead}{fence}{info}\n{indent}{lead}let {codez} = 1;\n"));
+                if rng.chance(1, 2) { b.nonprose("code", &format!("{indent}{lead}{other}\n{indent}{lead}then {codez} again\n")); }
+                if rng.chance(1, 4) { b.nonprose("code", &format!("{indent}{lead}{other}{other} {codez}\n{indent}{lead}{other}\n")); }
+                b.nonprose("code", &format!("{indent}{lead}{fence}\n"));
                 b.nonprose("leader", &format!("{indent}{lead}"));
                 { let k = rng.range(2, 4); b.prose_words(rng, k); }
                 b.nonprose("ws", "\n");
@@ -325,6 +329,56 @@ pub fn main(a: &Args) {
         // CRLF line ends for a quarter of the files (not for formats whose line handling is LF-only by design)
         let crlf = *s % 4 == 3 && !matches!(lang.as_str(), "lhaskell" | "git-commit");
         event(lang, &b, crlf)
+    });
+    for e in evs { out.emit(&e); }
+    println!("{}", json!({"events": out.finish()}));
+}
+
+/// `hv c04lines --cases F --out T`: every sequence of line kinds from MC_CommentLines, rendered as one comment block in
+/// several languages / comment styles and parsed by the real comment parser (CommentLines.tla, Trace_CommentLines.tla).
+pub fn lines_main(a: &Args) {
+    let cases = crate::util::read_ndjson(a.req("cases"));
+    let mut out = crate::util::Out::create(a.req("out"));
+    // (language id, style): line leaders, or a block comment with starred lines
+    let styles: [(&str, &str); 9] = [("rust", "// "), ("rust", "/// "), ("python", "# "), ("c", "//  "), ("javascript", "// "), ("typescript", "/// "),
+        ("javascript", "block"), ("typescript", "block"), ("lua", "-- ")];
+    let stride = a.num("stride", 1) as usize;
+    let jobs: Vec<(usize, usize)> = (0..cases.len()).flat_map(|c| (0..styles.len()).map(move |s| (c, s))).filter(|(c, s)| (c + s) % stride == 0).collect();
+    let evs = crate::util::par_map(jobs.len(), a.num("threads", 12) as usize, |_| (), |_, j| {
+        let (c, s) = jobs[j];
+        let kinds: Vec<&str> = cases[c]["kinds"].as_array().unwrap().iter().map(|k| k.as_str().unwrap()).collect();
+        let (lang, style) = styles[s];
+        let mut text = String::new();
+        let mut want_at: Vec<(usize, String)> = Vec::new();      // (character offset, word) per line
+        if style == "block" { text.push_str("/**\n"); }
+        for (i, k) in kinds.iter().enumerate() {
+            let lead = if style == "block" { " * " } else { style };
+            // every line's word is one of a kind (all lower-case letters, no dictionary word)
+            let word = format!("{}wq{}", match *k { "prose" => "pz", "dir" => "dz", _ => "fz" }, ["a", "b", "c", "d", "e", "f"][i % 6]);
+            text.push_str(lead);
+            match *k {
+                "bt" => { want_at.push((usize::MAX, String::new())); text.push_str("```"); }
+                "tl" => { want_at.push((usize::MAX, String::new())); text.push_str("~~~"); }
+                _ => { want_at.push((text.chars().count(), word.clone())); text.push_str(&word); }
+            }
+            text.push('\n');
+        }
+        if style == "block" { text.push_str(" */\n"); }
+        text.push_str(match lang { "python" => "x = 1\n", "lua" => "local x = 1\n", "rust" => "fn main() {}\n", "c" => "int x;\n", _ => "let x = 1;\n" });
+        let r = crate::util::catch(|| {
+            let parser = crate::front::base_parser(lang).unwrap();
+            let doc = crate::front::doc_with(&text, parser.as_ref());
+            let src: Vec<char> = text.chars().collect();
+            let words: Vec<(usize, String)> = doc.get_tokens().iter().filter(|t| t.kind.is_word())
+                .map(|t| (t.span.start, src[t.span.start..t.span.end.min(src.len())].iter().collect::<String>())).collect();
+            let offered: Vec<bool> = want_at.iter().map(|(at, w)| *at != usize::MAX && words.iter().any(|(s, x)| s == at && x == w)).collect();
+            let stray = words.iter().filter(|(s, x)| x.contains("wq") && !want_at.iter().any(|(at, w)| at == s && w == x)).count();
+            (offered, stray)
+        });
+        match r {
+            Ok((offered, stray)) => json!({"ev": "CL", "kinds": kinds, "lang": lang, "style": style, "offered": offered, "stray": stray, "text": text}),
+            Err(p) => json!({"ev": "Panic", "loc": p, "text": text}),
+        }
     });
     for e in evs { out.emit(&e); }
     println!("{}", json!({"events": out.finish()}));
